@@ -648,7 +648,7 @@ def drop_orphan_closures(raw, closure_paths):
                     continue
                 if t["callee"]["path"] == cp:
                     still = True
-                if p == parent or p.startswith(parent + "::"):
+                if p == parent or p.startswith(parent + "::") or cp.startswith(p + "::"):      # (any ancestor: the parent closure may itself have been inlined)
                     for a in t["args"]:
                         l = _bare(a)
                         if l is not None and _closure_of(body, l)[0] == cp:
@@ -656,7 +656,9 @@ def drop_orphan_closures(raw, closure_paths):
             if still:
                 break
         if not still:
-            for q in [q for q in bodies if q == cp or q.startswith(cp + "::{")]:
+            # (closures nested in it stay: the inlined code still builds and calls them, and crate-wide rules must keep seeing their
+            # bodies - `or_else(|| self.fallback.as_ref().map(|e| e.dispatched.clone()))` leaves the inner closure behind)
+            for q in [q for q in bodies if q == cp]:
                 del bodies[q]
                 removed.append(q)
     return removed
